@@ -1,6 +1,7 @@
 package json
 
 import (
+	"fmt"
 	"reflect"
 
 	"github.com/goccy/go-json/internal/decoder"
@@ -80,5 +81,11 @@ func (p *Path) Unmarshal(data []byte, v interface{}, optFuncs ...DecodeOptionFun
 
 // Get extract and substitute the value of the part corresponding to JSON Path from the input value.
 func (p *Path) Get(src, dst interface{}) error {
+	if src == nil {
+		return fmt.Errorf("json: Path.Get from a nil value")
+	}
+	if dst == nil || reflect.ValueOf(dst).Kind() != reflect.Ptr || reflect.ValueOf(dst).IsNil() {
+		return fmt.Errorf("json: Path.Get requires a non-nil pointer as destination")
+	}
 	return p.path.Get(reflect.ValueOf(src), reflect.ValueOf(dst))
 }
